@@ -153,6 +153,7 @@ type FnExec struct {
 	callResults map[string]specVar
 	callArgs    map[string][]specVar
 	calledCell  map[string]int
+	constGlobalsUsed []*constGlobal
 	curClosure  *ssa.MakeClosure
 	entryFacts int
 }
@@ -350,6 +351,7 @@ func (e *FnExec) havocAll(st *State, why string) {
 	e.addFact(st, Le(st.ctr, nc))
 	st.ctr = nc
 	e.epochCtr[st.epoch] = nc
+	e.constGlobalFacts(st)
 }
 
 // load reads a value of Go type t at location loc.
@@ -920,6 +922,7 @@ func (e *FnExec) run() {
 	e.initCallArgGhosts()
 	e.bindParams(st)
 	e.assumeRequires(st)
+	e.constGlobalFacts(st)
 	e.entryFacts = len(e.facts)
 	e.in[fn.Blocks[0]] = st
 	for _, b := range e.order {
@@ -953,7 +956,7 @@ func (e *FnExec) initCalledGhosts(st *State) {
 			if j < 0 {
 				break
 			}
-			name := strings.TrimSpace(t[:j])
+			name := strings.ReplaceAll(strings.TrimSpace(t[:j]), " ", "")
 			if _, ok := e.calledCell[name]; !ok {
 				e.ncell++
 				e.calledCell[name] = e.ncell
@@ -1156,6 +1159,18 @@ func (e *FnExec) enterLoop(li *loopInfo, in *State) *State {
 			if a, ok := s.Addr.(*ssa.Alloc); ok && a.Comment == "rangeindex" {
 				if id, ok := e.cellOf[a]; ok && st.cells[id] != nil {
 					e.addFact(st, Le(IntLit(-1), st.cells[id]))
+					// ... and stays below the length taken before the loop: the header is
+					// re-entered only after `index+1 < len` let the body run
+					if iff, ok := li.header.Instrs[len(li.header.Instrs)-1].(*ssa.If); ok {
+						if b, ok := iff.Cond.(*ssa.BinOp); ok && b.Op == token.LSS && b.X == s.Val {
+							if lv, ok := e.vals[b.Y]; ok && lv.T != nil {
+								e.addFact(st, Or(Eq(st.cells[id], IntLit(-1)), Le(st.cells[id], Sub(lv.T, IntLit(1)))))
+								// part of a counterexample: how long the ranged-over slice is, and where the loop stands
+								e.inputs = append(e.inputs, NamedTerm{fmt.Sprintf("rangelen(loop%d)", li.ordinal), lv.T, "int"},
+									NamedTerm{fmt.Sprintf("rangeindex(loop%d)", li.ordinal), Add(st.cells[id], IntLit(1)), "int"})
+							}
+						}
+					}
 				}
 			}
 		}
